@@ -87,3 +87,13 @@ pub open spec fn pow2(n: nat) -> nat decreases n { if n == 0 { 1 } else { 2 * po
 //@  contract
         ensures res == (self.bits_in == 0),
 //@end
+
+//@extract struct BitBuffer from miniz_oxide/src/deflate/core.rs
+//@end
+
+//@extract fn put_fast in impl BitBuffer from miniz_oxide/src/deflate/core.rs
+//@  contract
+        requires old(self).bits_in + len <= 64, old(self).bits_in < 64,
+        ensures final(self).bits_in == old(self).bits_in + len,
+//@end
+
